@@ -151,6 +151,26 @@ func C18(c *Ctx) {
 		}
 		return true
 	}
+	// exeOrFresh: v is the wrapped call's execution, or on some paths an execution made on the spot in its place
+	// (`if exe == nil { exe = NewExecution(nil) }`)
+	exeOrFresh := func(v ssa.Value, exeVal ssa.Value) bool {
+		leaves := deepDefs(v, closure)
+		hit := false
+		for _, l := range leaves {
+			if l == exeVal {
+				hit = true
+				continue
+			}
+			if cl, isC := l.(*ssa.Call); isC && cl.Common().StaticCallee() != nil && cl.Common().StaticCallee().Name() == "NewExecution" {
+				continue
+			}
+			if al, isA := l.(*ssa.Alloc); isA && ssau.TypeIs(al.Type().Underlying().(*types.Pointer).Elem(), prog.Abs("core"), "Execution") {
+				continue
+			}
+			return false
+		}
+		return hit
+	}
 	// anchorIn: the instruction of Exec that executes `in` (itself, or the call leading to its function)
 	var anchorIn func(in ssa.Instruction, depth int) ssa.Instruction
 	anchorIn = func(in ssa.Instruction, depth int) ssa.Instruction {
@@ -273,14 +293,14 @@ func C18(c *Ctx) {
 			// the map written is the Bs of the wrapped call's execution, or a copy of it that is then made its Bs
 			isExeBs := false
 			for _, d := range deepDefs(mu.Map, closure) {
-				if base, is := isFieldLoad(d, "core", "Execution", "Bs"); is && tracesTo(base, exeVal) {
+				if base, is := isFieldLoad(d, "core", "Execution", "Bs"); is && exeOrFresh(base, exeVal) {
 					isExeBs = true
 					continue
 				}
 				if cl, isC := d.(*ssa.Call); isC && cl.Common().StaticCallee() != nil && cl.Common().StaticCallee().Name() == "Copy" && len(cl.Common().Args) == 1 {
 					fromBs := false
 					for _, d2 := range deepDefs(cl.Common().Args[0], closure) {
-						if base, is := isFieldLoad(d2, "core", "Execution", "Bs"); is && tracesTo(base, exeVal) {
+						if base, is := isFieldLoad(d2, "core", "Execution", "Bs"); is && exeOrFresh(base, exeVal) {
 							fromBs = true
 						}
 					}
@@ -288,7 +308,7 @@ func C18(c *Ctx) {
 					for _, g2 := range closure {
 						for _, st := range storesTo(g2, "Execution", "Bs") {
 							_, _, sb, _ := ssau.FieldOf(st.Addr)
-							if tracesTo(sb, exeVal) {
+							if exeOrFresh(sb, exeVal) {
 								for _, d3 := range deepDefs(st.Val, closure) {
 									if d3 == d {
 										installed = true
